@@ -32,6 +32,8 @@ def _is_ws(c):
 
 def classify(text):
     res = Result()
+    if text[:1] == "\ufeff":
+        text = text[1:]  # a byte-order mark at the start of a file is not part of the text (compilers skip it)
     # ---- phase 1/2: physical lines, splices ----
     chars = []  # (char, physical line); '\n' entries are logical newlines
     line = 1
